@@ -465,25 +465,61 @@ def facet_table(ck, F, X):
     if b is None:
         ck.undecided("R4", "build_restrictions", "-", "function building the model Restrictions not found")
     else:
+        # which XSD facet name fills which model field: an out-parameter call `f(node, &mut restrictions.F, "name")`, or an
+        # assignment `restrictions.F = .. g(node, "name") ..` / `*target = ..` with target bound to `&mut restrictions.F` (loops
+        # over literal tables of (field, name) pairs are unrolled by the walker)
+        XSD_FACETS = {"minInclusive", "maxInclusive", "minExclusive", "maxExclusive", "totalDigits", "fractionDigits", "length",
+                      "minLength", "maxLength", "whiteSpace", "pattern", "enumeration"}
+        W = og.EnvWalker(F)
+
+        def model_field(nf):
+            while isinstance(nf, tuple) and nf[0] in ("payload",):
+                nf = nf[2]
+            if isinstance(nf, tuple) and nf[0] == "field" and isinstance(nf[1], tuple) and nf[1][0] in ("local", "param", "call", "unknown") \
+                    and "estrictions" in og.nf_str(nf[1]):
+                return nf[2]
+            return None
+
+        def lits_of(nf):
+            return [r[1] for r in og.nf_roots(nf) if r[0] == "lit" and isinstance(r[1], str) and r[1] in XSD_FACETS]
+
+        def cb(e, env, ctx):
+            k = e.get("k")
+            if k in ("Call", "MethodCall"):
+                args = ([e["recv"]] if k == "MethodCall" else []) + list(e["args"])
+                outs = []
+                for a in args:
+                    a2 = Hh.strip(a)
+                    if a2.get("k") == "AddrOf" and a2.get("mut"):
+                        f = model_field(W.NF.nf(a2, env))
+                        if f:
+                            outs.append(f)
+                if outs:
+                    names = [l for a in args for l in lits_of(W.NF.nf(a, env))]
+                    for f in outs:
+                        for l in names:
+                            read_tab.setdefault(f, []).append((l, Hh.sp(e)))
+            if k == "Assign":
+                f = model_field(W.NF.nf(e["a"], env))
+                if f:
+                    src = W.NF.nf(e["b"], env)
+                    names = lits_of(src) + [l for c in ctx if c[0] == "alt" for l in lits_of(c[1])]
+                    if f == "enumeration" and not names:
+                        return
+                    for l in dict.fromkeys(names):
+                        read_tab.setdefault(f, []).append((l, Hh.sp(e)))
+        try:
+            W.walk_fn(b["path"], cb)
+        except og.Unrecognised as u:
+            ck.undecided("R4", "reader-row-shape", b["span"], f"facet extraction of unrecognised shape: {u.what}")
         nb = Hh.norm_body(b)
-        for x in Hh.exprs(nb["value"]):
-            if x.get("k") == "Call" and (Hh.callee_path(x) or "").endswith("get_restriction_from_attribute_or_node"):
-                a = x["args"]
-                tgt = Hh.strip(a[1])
-                while tgt.get("k") in ("AddrOf",):
-                    tgt = Hh.strip(tgt["e"])
-                lit = Hh.strip(a[2])
-                if tgt.get("k") == "Field" and lit.get("k") == "Lit":
-                    read_tab.setdefault(tgt["name"], []).append((lit["v"], Hh.sp(x)))
-                else:
-                    ck.undecided("R4", "reader-row-shape", Hh.sp(x), "facet extraction call of unrecognised shape")
-        # enumeration: assigned from children filtered by tag == "enumeration", attribute "value"
-        for x in Hh.exprs(nb["value"]):
-            if x.get("k") == "Assign":
-                lhs = Hh.strip(x["a"])
-                if lhs.get("k") == "Field" and lhs["name"] == "enumeration":
-                    lits = [y.get("v") for y in Hh.exprs(nb["value"]) if y.get("k") == "Lit" and y.get("lit") == "str"]
-                    if "enumeration" in lits and "value" in lits:
+        # enumeration: collected from the children whose tag is "enumeration", attribute "value"
+        lits = [y.get("v") for y in Hh.exprs(nb["value"]) if y.get("k") == "Lit" and y.get("lit") == "str"]
+        if "enumeration" in lits and "value" in lits and not read_tab.get("enumeration"):
+            for x in Hh.exprs(nb["value"]):
+                if x.get("k") == "Assign":
+                    lhs = Hh.strip(x["a"])
+                    if lhs.get("k") == "Field" and lhs["name"] == "enumeration":
                         read_tab.setdefault("enumeration", []).append(("enumeration", Hh.sp(x)))
     # (b) writer: helper field <- model field
     write_tab = {}
